@@ -385,4 +385,34 @@ def specStep (admitsNil : Bool) (h : List Op) (inp : In) (r : R) : Bool :=
   | .nil, .err o => (match o with | .dflt _ | .prefaultOk _ | .nil => false | _ => specNil admitsNil h o)
   | _, _ => false
 
+/-! ### Structure fingerprints: what the transcriptions above depend on, as the translator extracts it from the
+    sources (`harness/cmd/c03 gen` → `Gozod/Gen/C03Tables.lean`; compared in `Proofs/C03.lean`) -/
+
+/-- The fields `Ctx` mirrors (core/parsing.go `type ParseContext struct`). -/
+def ctxFieldsExpected : List String := ["Error", "ReportInput", "IsPrefaultContext"]
+
+/-- `processModifiersCore`'s top-level statements in source order — the branch order `nilOutcome` /
+    `processModifiersCtx` transcribe (Default > Prefault > NonOptional > Optional/Nilable/pointer > unknown > type error). -/
+def pmcBranchesExpected : List String := [
+  "if !isNilInput(input)",
+  "if v := resolveDefault(internals); v != nil",
+  "if internals.PrefaultValue != nil",
+  "if internals.PrefaultFunc != nil",
+  "isPtr := reflect.TypeFor[T]().Kind() == reflect.Pointer",
+  "if internals.NonOptional && !isPtr",
+  "if internals.Optional || internals.Nilable || isPtr",
+  "if expectedType == core.ZodTypeUnknown",
+  "return nil, true, issues.CreateInvalidTypeError(expectedType, input, ctx)"]
+
+/-- `processModifiers` and `processModifiersStrict` are that one call and nothing else (no state kept around it). -/
+def processModifiersBodyExpected : String := "return processModifiersCore[T](input, internals, expectedType, ctx)"
+
+/-- Where the library may name a ParseContext state field: the constructors of *new* contexts in core/context.go
+    (they copy `ReportInput` into the context they return) and `FinalizeIssue`, which reads `ReportInput` to decide
+    whether the raw input is attached to the finished issue. No verdict, code or value depends on either. -/
+def ctxSiteAllowed (file fn field kind : String) : Bool :=
+  field == "ReportInput" &&
+  ((file == "core/context.go" && (kind == "init" || kind == "read")) ||
+   (file == "internal/issues/finalize.go" && fn == "FinalizeIssue" && kind == "read"))
+
 end Gozod.Mods
